@@ -24,7 +24,7 @@ TECH = "Lean 4 theorems (model ⊑ spec for all inputs, all profiles) + regenera
 D = {
  "C01": "add_sub_spec / checked_add_sub_spec / add_sub_int_spec / checked_add_sub_int_spec / add_sub_value: for ALL operands of the domain + - checked_add checked_sub (Decimal and integer bodies) return exactly the aligned exact sum with max(p,q) digits or the overflow signal (panic / None), never another panic; no profile dependence (no plain arithmetic left).",
  "C02": "mul_spec / checked_mul_spec / mul_int_spec / checked_mul_int_spec / checkedMulRounded_spec: zero/one short cuts, exact product with p+q digits for p+q<=18, else the exact product rounded once to 18 digits under the thread mode on both the 128-bit and the 256-bit path, overflow exactly when the result does not fit; the 256-bit helper's specification is proved in C16.",
- "C03": "div_spec / checked_div_spec / div_dec_int_spec / div_int_dec_spec / normalize_spec: the exact quotient rounded once to 18 digits (kernel theorem of C04 with n=18), trailing zeros stripped exactly, divisor-one and zero short cuts, zero divisor -> panic/None, overflow only when the rounded quotient does not fit.",
+ "C03": "div_spec / checked_div_spec / div_dec_int_spec / div_int_dec_spec / normalize_spec: the exact quotient rounded once to 18 digits (kernel theorem of C04 with n=18), trailing zeros stripped exactly, divisor-one and zero short cuts, zero divisor -> panic/None, overflow only when the rounded quotient does not fit; the integer divisor ranges over every value of its type including i128::MIN (repaired defect D13), an integer dividend i128::MIN is covered by the correspondence run only.",
  "C04": "checkedDivRounded_spec (all four scaling branches; the repaired divisor-scaled branch via specRound_two_step), div_rounded_spec + guarded integer shapes, mul_rounded_spec, four quantize theorems; the unguarded int/int shape is proved for n<=18 only (div_rounded_int_int_partial) with the Lean witness of the open known finding D8.",
  "C05": "kernel_spec (i128_div_rounded = Spec.specRoundQ for all 8 modes, all in-range n, d != 0), spec_table (the spec agrees with Python-decimal outcomes on the complete class grid), round_spec / checked_round_spec for every Decimal of the domain and every n : i8 including the far-negative shortcut.",
  "C06": "from_str_spec: for EVERY byte string shorter than 2^56 bytes Decimal::from_str agrees with the reference grammar parser (unbounded integers), value and digit count exact, Err otherwise, Empty only for the empty string, never a panic; SWAR lemmas proved without bv_decide; saturating accumulation; exponent saturation never changes the verdict.",
@@ -69,7 +69,7 @@ m = {
                  "kind_free_text": "Lean 4 executable model + spec + theorems; Rust line-protocol harness; Python orchestrator"}],
     "checks": checks,
     "not_applicable": [],
-    "notes": "13 genuine defects were repaired in /repo as separate `fix:` commits (known_findings.json, DESIGN.md section 4); one open known finding (D8 int/int).",
+    "notes": "14 genuine defects were repaired in /repo as separate `fix:` commits (known_findings.json, DESIGN.md section 4); one open known finding (D8 int/int).",
 }
 json.dump(m, open(ROOT / "MANIFEST.json", "w"), indent=1)
 print("MANIFEST.json written:", len(checks), "checks")
